@@ -238,15 +238,14 @@ pub fn run_check(chk: Check, tier: Tier, seed: u64) -> i32 {
         known_hits,
         wall
     );
+    if new_viols > 0 {
+        return 1;
+    }
     if !vacuous.is_empty() {
         eprintln!("krpmc MACHINERY: vacuous run, essential trigger counters are zero: {:?}", vacuous);
         return 2;
     }
-    if new_viols > 0 {
-        1
-    } else {
-        0
-    }
+    0
 }
 
 /// `krpmc replay <file>`: plain re-execution of a recorded counterexample on the current build.
